@@ -290,6 +290,10 @@ func (x *c19bCtx) judge(site string, c c19bCase, seqs []string, counts []int, go
 	if len(want.w) > len(want.sources) {
 		r.Count("packs_graph_with_edges", 1)
 	}
+	if c.Cov > 0 && float64(want.minw) < float64(uint(float64(want.maxw)*c.Cov+0.5)) {
+		// (vacuity guard: decided on the model graph, before the answer of the implementation is looked at)
+		r.Count("packs_whose_model_graph_the_low_coverage_filter_may_trim", 1)
+	}
 	if got == nil && want.k > 31 {
 		// beyond the k range of the statement (a k-mer no longer fits the 64-bit node): giving up is fine,
 		// but a consensus that IS returned is judged like any other
@@ -412,13 +416,37 @@ func c19bMakeSeqs(seqs []string, counts []int) obiseq.BioSequenceSlice {
 	return out
 }
 
+// c19bSync is true while a call that runs on the harness goroutine alone is in progress: a logrus Fatal of
+// the code under test is then turned into a panic (recovered by c19bTry and reported as the outcome of that
+// call). Otherwise (the pipeline of the command, with goroutines of its own) the goroutine that raised it
+// cannot be unwound: the violation is recorded, what the shard found is written and the shard ends.
+var c19bSync bool
+var c19bCur c19bCase
+
+func c19bExitFunc(r *verifkit.Result) func(int) {
+	return func(code int) {
+		if c19bSync {
+			panic(fmt.Sprintf("log.Fatal (exit status %d)", code))
+		}
+		c := c19bCur
+		r.Violate("CLIOBIMinion/log.Fatal", fmt.Sprintf("%s ksz=%d cov=%v seqs=%v cluster=%v: the pipeline ends the command with log.Fatal (exit status %d) on a valid data set",
+			c.Kind, c.Ksz, c.Cov, c.Seqs, c.Cluster, code), c)
+		r.Cap("a log.Fatal of the pipeline under test ended the shard: its remaining cases were not run")
+		r.Write()
+		os.Exit(0)
+	}
+}
+
 func (x *c19bCtx) buildCheck(c c19bCase) {
 	r := x.r
 	r.Eval(1)
 	pack := c19bMakeSeqs(c.Seqs, c.Counts)
 	var got *obiseq.BioSequence
 	var err error
-	if p := c19bTry(func() { got, err = BuildConsensus(pack, "cid", c.Ksz, c.Cov, false, "") }); p != "" {
+	c19bSync = true
+	p := c19bTry(func() { got, err = BuildConsensus(pack, "cid", c.Ksz, c.Cov, false, "") })
+	c19bSync = false
+	if p != "" {
 		key := "BuildConsensus/panic"
 		if c.Cov > 1 {
 			key += ":low-coverage-above-1"
@@ -473,6 +501,7 @@ func (x *c19bCtx) cliCheck(c c19bCase) {
 	}
 	out := map[string]*obiseq.BioSequence{} // "<vertex id>/<sample>"
 	dup := ""
+	c19bCur = c
 	if p := c19bTry(func() {
 		it := CLIOBIMinion(obiiter.IBatchOver("c19b", db, 1000))
 		for it.Next() {
@@ -514,6 +543,13 @@ func (x *c19bCtx) cliCheck(c c19bCase) {
 					neigh = append(neigh, j)
 				}
 			}
+			needsPack := len(neigh) > 4
+			if c.Cluster {
+				needsPack = len(neigh) >= 1
+			}
+			if needsPack {
+				r.Count("cli_reads_with_a_pack_in_the_input", 1) // (vacuity guard: a fact of the data set generated)
+			}
 			got, present := out[fmt.Sprintf("s%d/%s", i, name)]
 			if !present {
 				if !c.Cluster {
@@ -523,10 +559,6 @@ func (x *c19bCtx) cliCheck(c c19bCase) {
 			}
 			r.Trans(1)
 			isCons, _ := got.GetAttribute("obiconsensus_consensus")
-			needsPack := len(neigh) > 4
-			if c.Cluster {
-				needsPack = len(neigh) >= 1
-			}
 			if !needsPack {
 				// no consensus is built: the read itself is written
 				if isCons == true || string(got.Sequence()) != c.Seqs[i] {
@@ -615,6 +647,7 @@ func TestVerifC19B(t *testing.T) {
 
 	r := verifkit.New("C19")
 	defer r.Write()
+	log.StandardLogger().ExitFunc = c19bExitFunc(r)
 	x := &c19bCtx{r: r, nviol: map[string]int{}}
 
 	if rc := r.ReplayCase(); rc != nil {
@@ -676,73 +709,8 @@ func TestVerifC19B(t *testing.T) {
 
 	covs := []float64{0, 0.5, 1}
 
-	// ---- P. one read, and every multiset of two reads
-	part("P", func() {
-		all := verifkit.AllStrings("acgt", 1, pairMax)
-		for i := 0; i < len(all) && !expired(); i++ {
-			if !mine() {
-				continue
-			}
-			for _, ksz := range []int{-1, 2, 3} {
-				x.buildCheck(c19bCase{Kind: "build", Seqs: []string{all[i]}, Counts: []int{2}, Ksz: ksz})
-			}
-			for j := i; j < len(all); j++ {
-				maxlen := max(len(all[i]), len(all[j]))
-				for _, cc := range [][]int{{1, 1}, {2, 1}, {1, 3}} {
-					for ksz := -1; ksz <= maxlen+1; ksz++ {
-						if ksz == 0 {
-							continue
-						}
-						for _, cov := range covs {
-							x.buildCheck(c19bCase{Kind: "build", Seqs: []string{all[i], all[j]}, Counts: cc, Ksz: ksz, Cov: cov})
-						}
-						if cc[0] == 2 {
-							// a threshold given as a coverage, not as a share
-							x.buildCheck(c19bCase{Kind: "build", Seqs: []string{all[i], all[j]}, Counts: cc, Ksz: ksz, Cov: 2})
-						}
-					}
-				}
-			}
-		}
-	})
-	// ---- Q. longer pairs, lean settings
-	part("Q", func() {
-		all := verifkit.AllStrings("acgt", pairMax+1, pairMaxLean)
-		for i := 0; i < len(all) && !expired(); i++ {
-			if !mine() {
-				continue
-			}
-			for j := i; j < len(all); j++ {
-				for _, ksz := range []int{-1, 3} {
-					x.buildCheck(c19bCase{Kind: "build", Seqs: []string{all[i], all[j]}, Counts: []int{2, 1}, Ksz: ksz})
-				}
-			}
-		}
-	})
-	// ---- T. every multiset of three reads
-	part("T", func() {
-		all := verifkit.AllStrings("acgt", 1, tripleMax)
-		for i := 0; i < len(all) && !expired(); i++ {
-			for j := i; j < len(all); j++ {
-				if !mine() {
-					continue
-				}
-				for l := j; l < len(all); l++ {
-					maxlen := max(len(all[i]), len(all[j]), len(all[l]))
-					for _, cc := range [][]int{{1, 1, 1}, {1, 2, 3}, {3, 1, 2}} {
-						for ksz := -1; ksz <= maxlen; ksz++ {
-							if ksz == 0 || ksz == 1 {
-								continue
-							}
-							for _, cov := range []float64{0, 0.5} {
-								x.buildCheck(c19bCase{Kind: "build", Seqs: []string{all[i], all[j], all[l]}, Counts: cc, Ksz: ksz, Cov: cov})
-							}
-						}
-					}
-				}
-			}
-		}
-	})
+	// Order (breadth first): the cheap parts (large k, repeats across the 31/32 limit, the pipeline of the
+	// command) before the deep enumerations of pairs and triples.
 	// ---- L. large k: windows of an 80-mer with every one-substitution variant, start size up to 31
 	part("L", func() {
 		step := 16
@@ -854,8 +822,76 @@ func TestVerifC19B(t *testing.T) {
 			}
 		})
 	})
+	// ---- Q. longer pairs, lean settings
+	part("Q", func() {
+		all := verifkit.AllStrings("acgt", pairMax+1, pairMaxLean)
+		for i := 0; i < len(all) && !expired(); i++ {
+			if !mine() {
+				continue
+			}
+			for j := i; j < len(all); j++ {
+				for _, ksz := range []int{-1, 3} {
+					x.buildCheck(c19bCase{Kind: "build", Seqs: []string{all[i], all[j]}, Counts: []int{2, 1}, Ksz: ksz})
+				}
+			}
+		}
+	})
+	// ---- T. every multiset of three reads
+	part("T", func() {
+		all := verifkit.AllStrings("acgt", 1, tripleMax)
+		for i := 0; i < len(all) && !expired(); i++ {
+			for j := i; j < len(all); j++ {
+				if !mine() {
+					continue
+				}
+				for l := j; l < len(all); l++ {
+					maxlen := max(len(all[i]), len(all[j]), len(all[l]))
+					for _, cc := range [][]int{{1, 1, 1}, {1, 2, 3}, {3, 1, 2}} {
+						for ksz := -1; ksz <= maxlen; ksz++ {
+							if ksz == 0 || ksz == 1 {
+								continue
+							}
+							for _, cov := range []float64{0, 0.5} {
+								x.buildCheck(c19bCase{Kind: "build", Seqs: []string{all[i], all[j], all[l]}, Counts: cc, Ksz: ksz, Cov: cov})
+							}
+						}
+					}
+				}
+			}
+		}
+	})
+	// ---- P. one read, and every multiset of two reads
+	part("P", func() {
+		all := verifkit.AllStrings("acgt", 1, pairMax)
+		for i := 0; i < len(all) && !expired(); i++ {
+			if !mine() {
+				continue
+			}
+			for _, ksz := range []int{-1, 2, 3} {
+				x.buildCheck(c19bCase{Kind: "build", Seqs: []string{all[i]}, Counts: []int{2}, Ksz: ksz})
+			}
+			for j := i; j < len(all); j++ {
+				maxlen := max(len(all[i]), len(all[j]))
+				for _, cc := range [][]int{{1, 1}, {2, 1}, {1, 3}} {
+					for ksz := -1; ksz <= maxlen+1; ksz++ {
+						if ksz == 0 {
+							continue
+						}
+						for _, cov := range covs {
+							x.buildCheck(c19bCase{Kind: "build", Seqs: []string{all[i], all[j]}, Counts: cc, Ksz: ksz, Cov: cov})
+						}
+						if cc[0] == 2 {
+							// a threshold given as a coverage, not as a share
+							x.buildCheck(c19bCase{Kind: "build", Seqs: []string{all[i], all[j]}, Counts: cc, Ksz: ksz, Cov: 2})
+						}
+					}
+				}
+			}
+		}
+	})
 	if only == "" && !stop {
-		for _, c := range []string{"packs_kmer_size_increased_on_cycle", "packs_graph_with_edges", "packs_low_coverage_filter_may_trim", "cli_consensus_records"} {
+		// (counters decided on the model / on the data sets generated, none on what the implementation answered)
+		for _, c := range []string{"packs_kmer_size_increased_on_cycle", "packs_graph_with_edges", "packs_whose_model_graph_the_low_coverage_filter_may_trim", "cli_reads_with_a_pack_in_the_input"} {
 			r.RequireNonVacuous(c)
 		}
 	}
